@@ -99,6 +99,12 @@ theorem pubkey_decompress_spec (x : Nat) (odd : Bool) (q : Point) (h : decompres
     x < p ∧ ∃ y0, fsqrt ((x * x % p * x + curveB) % p) = some y0 ∧
       q = .aff x (if (y0 % 2 == 1) == odd then y0 else p - y0) := Parsers.decompress_spec x odd q h
 
+/-- every accepted compressed (02/03) or x-only key is a solution of the curve equation with x < p:
+    off-curve x coordinates and x ≥ p are rejected. -/
+theorem pubkey_compressed_on_curve (x : Nat) (odd : Bool) (q : Point) (h : decompress x odd = some q) :
+    ∃ y, q = .aff x y ∧ x < p ∧ y * y % p = (x * x % p * x + curveB) % p :=
+  Parsers.decompress_on_curve x odd q h
+
 /-- accepted x-only (BIP340) keys: exactly 32 bytes, x < p, and the result is (x, y) with y² = x³ + 7 and the
     even one of the two roots chosen; x ≥ p and non-residues are rejected. -/
 theorem xonly_pubkey_accept (b : List UInt8) (q : Point) (h : parseXOnly b = some q) :
